@@ -964,28 +964,49 @@ Proof.
   eapply akeep_trans; [exact Hr|apply stopSending_akeep].
 Qed.
 
+Lemma makeAdaptedBodyPipe_ok z :
+  ad_pipe (ad z) = false -> o_end (out z) = None -> makeAdaptedBodyPipe z = Ok (with_ad_pipe true z).
+Proof. intros A B. unfold makeAdaptedBodyPipe, must, bind. rewrite A, B. reflexivity. Qed.
+
 Lemma prepEchoing_ok x :
   ad_header (ad x) = None -> ad_pipe (ad x) = false ->
   (vb_expected (cfg x) = true ->
      (active (s_st (vs x)) = true \/ (is_disabled (s_st (vs x)) = false /\ s_off (vs x) = 0)) /\ o_end (out x) = None) ->
-  exists y, prepEchoing x = Ok y /\ akeep x y.
+  exists y, prepEchoing x = Ok y /\ akeep x y /\ ad_header (ad y) = Some SrcVirgin.
 Proof.
   intros Hh Hp Hb. unfold prepEchoing. cbv zeta.
-  unfold disableBypass, disableRepeats. cbn [ad with_protect_group with_can_bypass with_repeatable set_fl ad_header].
-  rewrite Hh. unfold must at 1. cbn [bind].
-  match goal with |- context[vb_expected (cfg ?z)] => change (vb_expected (cfg z)) with (vb_expected (cfg x)) end.
+  set (x1 := disableBypass true (disableRepeats x)).
+  assert (E1 : ad_header (ad x1) = None) by exact Hh.
+  unfold must at 1. rewrite E1. cbn [bind].
+  set (x2 := with_ad_isreply _ (with_ad_header (Some SrcVirgin) x1)).
+  assert (K2 : akeep x x2) by (split; reflexivity).
+  assert (P2 : ad_pipe (ad x2) = false) by exact Hp.
+  assert (H2 : ad_header (ad x2) = Some SrcVirgin) by reflexivity.
+  change (vb_expected (cfg x2)) with (vb_expected (cfg x)).
   destruct (vb_expected (cfg x)) eqn:Ev.
   - destruct (Hb eq_refl) as (Hs & He).
-    match goal with |- context[active (s_st (vs ?z))] => change (s_st (vs z)) with (s_st (vs x)); change (s_off (vs z)) with (s_off (vs x)) end.
-    destruct Hs as [Hs|(Hs1 & Hs2)].
-    + rewrite Hs. cbn [bind]. unfold makeAdaptedBodyPipe, checkConsuming, must, bind.
-      brk; cbn in *; try congruence; eexists; (split; [reflexivity|split; reflexivity]).
-    + destruct (active (s_st (vs x))).
-      * cbn [bind]. unfold makeAdaptedBodyPipe, checkConsuming, must, bind.
-        brk; cbn in *; try congruence; eexists; (split; [reflexivity|split; reflexivity]).
-      * rewrite Hs1, Hs2. cbn [negb andb N.eqb must bind]. unfold makeAdaptedBodyPipe, checkConsuming, must, bind.
-        brk; cbn in *; try congruence; eexists; (split; [reflexivity|split; reflexivity]).
-  - unfold stopSending, checkConsuming, must, bind. brk; cbn in *; try congruence; eexists; (split; [reflexivity|split; reflexivity]).
+    assert (E2 : o_end (out x2) = None) by exact He.
+    set (r := if active (s_st (vs x2)) then Ok x2 else _).
+    assert (Hr : exists x3, r = Ok x3 /\ akeep x x3 /\ ad_pipe (ad x3) = false /\ o_end (out x3) = None /\ ad_header (ad x3) = Some SrcVirgin).
+    { subst r. change (s_st (vs x2)) with (s_st (vs x)). change (s_off (vs x2)) with (s_off (vs x)).
+      destruct (active (s_st (vs x))) eqn:Ea; [exists x2; auto|].
+      destruct Hs as [Hs|(Hs1 & Hs2)]; [congruence|]. rewrite Hs1, Hs2. cbn [negb andb N.eqb must bind].
+      eexists; split; [reflexivity|]. repeat split; auto. }
+    destruct Hr as (x3 & -> & K3 & P3 & E3 & H3). cbn [bind].
+    set (z := checkConsuming (with_sending SVirgin x3)).
+    pose proof (checkConsuming_fr (with_sending SVirgin x3)) as F. fold z in F.
+    destruct F as (Fa & Fo & Fj & _).
+    rewrite (makeAdaptedBodyPipe_ok z); [|rewrite Fa; exact P3|rewrite Fo; exact E3]. cbn [bind].
+    assert (Kz : akeep x z) by (unfold akeep in *; rewrite Fo, Fj; exact K3).
+    assert (Hz : ad_header (ad z) = Some SrcVirgin) by (rewrite Fa; exact H3).
+    destruct (vb_known (cfg (with_ad_pipe true z))); eexists; (split; [reflexivity|split; [exact Kz|exact Hz]]).
+  - pose proof (stopSending_akeep true x2) as KS. pose proof (stopSending_facts true x2) as (FH & _).
+    assert (OK : exists y, stopSending true x2 = Ok y).
+    { unfold stopSending. destruct (sending (st x2)); try (eexists; reflexivity).
+      unfold must, bind. rewrite P2. cbn [negb]. eexists; reflexivity. }
+    destruct OK as (y & Ey). rewrite Ey in *. cbn [st_of] in *. exists y. split; [reflexivity|split].
+    + eapply akeep_trans; [exact K2|exact KS].
+    + rewrite FH. exact H2.
 Qed.
 
 (* With bypass enabled, an exception thrown while the virgin body backup is still usable and no adapted head exists
@@ -1002,12 +1023,8 @@ Proof.
   set (x0 := disableBypass false x).
   assert (E0 : retriable (fl x0) = false) by exact Hr.
   unfold must at 1. rewrite E0. cbn [negb bind].
-  destruct (prepEchoing_ok x0) as (y & Ey & Ky); [exact Hh|exact Hp|exact Hb|].
-  pose proof (prepEchoing_spec x0) as PS.
+  destruct (prepEchoing_ok x0) as (y & Ey & Ky & Hyh); [exact Hh|exact Hp|exact Hb|].
   rewrite Ey. cbn [bind].
-  assert (Hyh : ad_header (ad y) = Some SrcVirgin).
-  { clear PS. revert Ey. unfold prepEchoing, makeAdaptedBodyPipe, stopSending, checkConsuming, must, bind, disableBypass, disableRepeats.
-    cbv zeta. intros Ey. revert Ey. brk; intros Ey; try discriminate; injection Ey as <-; reflexivity. }
   assert (Hyi : initiator (job y) = true) by (destruct Ky as (_ & Ki); rewrite Ki; exact Hi).
   (* startSending sends the answer, the rest keeps it *)
   unfold startSending at 1. cbv zeta.
